@@ -82,6 +82,12 @@ func HarnessC02a() {
 	// capture 2: cursor (implicit clone)
 	cur, err := base.Cursor(vctx)
 	verifAssert("C01.cursor.err", err == nil)
+	if verifBoundOr("NOROOT", 0) == 1 {
+		// no persist between the captures and the later writes (a persist turns the original's nodes
+		// into shared ones, after which every write copies): clone and cursor captures only
+		c02NoRoot(base, mdBase, c1, cur, mdCap, probe, K1)
+		return
+	}
 	// capture 3: persisted root
 	root, err := base.MakeRoot(vctx)
 	verifAssert("C01.makeroot.err", err == nil)
@@ -189,6 +195,42 @@ func HarnessC02a() {
 	}
 	// the cursor opened before all modifications still walks the captured contents
 	ks, vs, err := cursorWalk(cur, N+K1+1)
+	verifAssert("C02.cursor.err", err == nil)
+	if err == nil {
+		verifAssert("C02.cursor.seq", seqMatches(ks, vs, mdCap))
+	}
+}
+
+// c02NoRoot: K1 symbolic inserts/deletes on the original or on a second clone; the first clone and the
+// cursor opened before them must still show the captured contents.
+func c02NoRoot(base *Mast, mdBase *symModel, c1 *Mast, cur *Cursor, mdCap *symModel, probe symKey, K1 int) {
+	c2v, err := c1.Clone(vctx)
+	verifAssert("C01.clone.err", err == nil)
+	c2 := &c2v
+	mdC2 := mdCap.clone()
+	for i := 0; i < K1; i++ {
+		tgt, md := base, &mdBase
+		if verifChoose("target", 2) == 1 {
+			tgt, md = c2, &mdC2
+		}
+		k, v := verifNondetKey("k"), verifNondetVal("v")
+		if verifChoose("op", 2) == 0 {
+			verifAssert("C01.insert.err", tgt.Insert(vctx, symKey{k}, v) == nil)
+			(*md).put(k, v)
+		} else {
+			f, mv := (*md).lookup(k)
+			err := tgt.Delete(vctx, symKey{k}, v)
+			verifAssert("C01.delete.result", (err == nil) == verifAnd(f, mv == v))
+			if err == nil {
+				*md = (*md).clone()
+				(*md).del(k)
+			}
+		}
+		checkIterP("C02.clone", c1, mdCap, probe, i == K1-1)
+		checkIterP("C02.original", base, mdBase, probe, false)
+		checkIterP("C02.second-clone", c2, mdC2, probe, false)
+	}
+	ks, vs, err := cursorWalk(cur, int(mdCap.size())+K1+1)
 	verifAssert("C02.cursor.err", err == nil)
 	if err == nil {
 		verifAssert("C02.cursor.seq", seqMatches(ks, vs, mdCap))
